@@ -364,6 +364,20 @@ func (env *Env) evalCall(c *ast.CallExpr) *Val {
 			env.fail(c, "method value")
 		}
 		rv := env.eval(sel.X)
+		// automatic dereference / address-of at a method call: a value receiver called on a pointer gets the
+		// pointee, a pointer receiver called on an addressable value gets its address
+		if sig := fi.Sig(); sig != nil && sig.Recv() != nil && rv != nil {
+			_, wantPtr := sig.Recv().Type().(*types.Pointer)
+			if tv, ok := env.Pkg.TypesInfo.Types[sel.X]; ok {
+				_, havePtr := tv.Type.Underlying().(*types.Pointer)
+				switch {
+				case havePtr && !wantPtr && rv.Ptr != nil:
+					rv = rv.Ptr
+				case !havePtr && wantPtr && rv.Ptr == nil && !rv.Nil:
+					rv = &Val{Ptr: rv}
+				}
+			}
+		}
 		if len(fi.Decl.Recv.List[0].Names) == 1 {
 			ce.Vars[fi.Pkg.TypesInfo.Defs[fi.Decl.Recv.List[0].Names[0]]] = rv
 		}
